@@ -44,12 +44,11 @@ class _BaseDataContainer(ABC):
         """
         # If 'name' already exists in the attribute dict, the corresponding attribute will be overridden
         if name in self._attr and config.display_duplicate_attribute_warning:
-            warnings.warn(f"Attribute '{name}' already exists on {self.id}")
+            warnings.warn(f"Attribute '{name}' already exists on {self.id}") # the warning is optional, the override is not
+        if dense:
+            self._attr[name] = ArrayAttribute(data_type, len(self) if size is None else int(size), elem_size=elem_size, default_value=default_value)
         else:
-            if dense:
-                self._attr[name] = ArrayAttribute(data_type, len(self) if size is None else int(size), elem_size=elem_size, default_value=default_value)
-            else:
-                self._attr[name] = Attribute(data_type, elem_size=elem_size, default_value=default_value)
+            self._attr[name] = Attribute(data_type, elem_size=elem_size, default_value=default_value)
         return self._attr[name]
 
     def register_array_as_attribute(self, name: str, data: np.ndarray, default_value=None):
